@@ -286,7 +286,135 @@ MUT_UNIVERSE = [
     (None, SmartLookupDict()), ("x'y\"z\\", PLAIN1), ("and", PLAIN2), ("or", {}), ("not", PLAIN1),
     ("bc", SmartLookupDict({"k": {"v1": {}}})),
 ]
-UNIVERSES = {"main": UNIVERSE, "d14b": D14B_UNIVERSE, "mut": MUT_UNIVERSE}
+
+
+# ---- history universe: ONE long-lived data object changed between the calls on ONE cached expression --------
+class FaultyDict(dict):
+    """plain dict whose get() raises while armed: the environment itself fails at one call (fault injection)"""
+    fault = None        # (key, exception class)
+
+    def get(self, key, default=None):
+        f = self.fault
+        if f is not None and f[0] == key:
+            raise f[1]("injected fault")
+        return dict.get(self, key, default)
+
+
+class BadStr:
+    """a data value whose __str__ raises"""
+    def __str__(self):
+        raise RuntimeError("injected __str__ fault")
+
+    def __repr__(self):
+        return "BadStr()"
+
+
+def hist_script():
+    """yields (system_id, system_data) step by step; the data objects are changed IN PLACE between two yields, so
+    every yielded environment must be used (or copied) before the generator is advanced.  Successive values are
+    ==-equal but str()-different (1/True/1.0, 0/False/0.0/-0.0), falsy-but-valid ("", 0, [], {}, (), False), None
+    and missing alternate, containers are mutated in place, get()/__str__ fail once and work again afterwards."""
+    L = [1]
+    d = FaultyDict({"e": 1, "l": L, "u": "\u00e9", "z": 0, 1: "int", "1": "str", "\u043a\u043b": "v", "None": "s", None: "n"})
+    d.fault = ("e", RuntimeError)          # the very first use of the expression already meets a failing environment
+    yield ("a", d)
+    d.fault = None
+    yield ("a", d)
+    yield ("a", d)
+    for v, sid in [(True, "A"), (1.0, "a"), (1, ""), ("1", None), (0, "a"), (False, "a"), (0.0, "\u00e9"), (-0.0, "\u00c9"),
+                   (0, "a"), ("", "a"), (None, "A")]:
+        d["e"] = v
+        yield (sid, d)
+    del d["e"]
+    yield ("a", d)
+    for v in [None, "", [], {}, (), "None", None, 10 ** 30, -1, float("inf"), float("nan"), float("nan"), b"1", 1j,
+              "\u00e9", "\u00c9", "\u0130", 1]:
+        d["e"] = v
+        yield ("a", d)
+    # the environment fails once, then works again (state of the cached expression must be unaffected)
+    for exc in (RuntimeError, KeyError, OSError, ValueError):
+        d.fault = ("e", exc)
+        yield ("a", d)
+        d.fault = None
+        yield ("a", d)
+        d["e"] = True
+        yield ("b", d)
+        d["e"] = 1
+    d["e"] = BadStr()
+    yield ("a", d)
+    d["e"] = 1
+    yield ("a", d)
+    # a container changed in place: the very same objects are passed again
+    yield ("a", d)
+    L.append(2)
+    yield ("a", d)
+    L.clear()
+    yield ("a", d)
+    L.append(1)
+    yield ("a", d)
+    d["z"] = False
+    yield ("a", d)
+    d["z"] = 0.0
+    yield ("a", d)
+    # None / {} / object alternating
+    yield ("a", None)
+    yield ("a", d)
+    yield (None, {})
+    yield ("a", d)
+    # nested lookups through one SmartLookupDict
+    N = {"m": 1}
+    L2 = [1, "x"]
+    sd = SmartLookupDict({"n": N, "e": 1, "l": L2, "z": 0})
+    yield ("a", sd)
+    for v in [True, 1.0, "1", 1, None, 0, False, "", 0]:
+        N["m"] = v
+        yield ("a", sd)
+    del N["m"]
+    yield ("a", sd)
+    N["m"] = 1
+    yield ("a", sd)
+    L2[0] = True
+    yield ("a", sd)
+    L2[0] = 1.0
+    yield ("a", sd)
+    del L2[:]
+    yield ("a", sd)
+    sd["e"] = True
+    yield ("b", sd)
+    yield ("a", d)
+    yield ("a", sd)
+
+
+def _hist_snapshots():
+    import copy
+    return [(sid, copy.deepcopy(data)) for sid, data in hist_script()]
+
+
+HIST_UNIVERSE = _hist_snapshots()
+UNIVERSES = {"main": UNIVERSE, "d14b": D14B_UNIVERSE, "mut": MUT_UNIVERSE, "hist": HIST_UNIVERSE}
+
+_E_PATS = ["1", "True", "1.0", "0", "False", "0.0", "-0.0", "''", "None", "'[]'", "'{}'", "'()'", "\u00e9", "-1",
+           "1000000000000000019884624838656", "1000000000000000000000000000000"]
+HIST_EXPRS = (
+    ["@data_literal:e@" + p for p in _E_PATS]
+    + ["@data_literal/i:e@true", "@data_literal/i:e@\u00c9", "@data_literal/i:e@i\u0307", "@data_re:e@.+", "@data_re:e@.*",
+       "@data_glob:e@*", "@data_glob:e@?*", "@data_glob:e@''", "@data_re:e@'[01](\\.0)?'", "@data_glob/i:e@t*"]
+    + ["@data_literal:l@'[1]'", "@data_literal:l@'[1, 2]'", "@data_literal:l@'[]'", "@data_glob:l@*1*", "@data_re:l@.+"]
+    + ["@data_literal:z@0", "@data_literal:z@False", "@data_literal:z@0.0", "@data_glob:z@''"]
+    + ["@data_literal:u@\u00e9", "@data_literal/i:u@\u00c9", "@data_glob:u@?"]
+    + ["@data_literal:n:m@1", "@data_literal:n:m@True", "@data_literal:n:m@1.0", "@data_literal:n:m@''", "@data_literal:n:m@0",
+       "@data_literal:n:m@False", "@data_re:n:m@.+", "@data_literal:l:0@1", "@data_literal:l:0@True", "@data_glob:l:0@''",
+       "@data_literal:l:1@x"]
+    + ["@data_literal:1@str", "@data_literal:1@int", "@data_literal:\u043a\u043b@v", "@data_literal:None@s", "@data_literal:None@n",
+       "@data_literal:e@inf", "@data_literal:e@nan", "@data_literal:e@\"b'1'\"", "@data_literal:e@1j"]
+    + ["\u00e9", "@id_literal@\u00e9", "@id_literal/i@\u00c9", "@id_glob@\u00c9", "''", "@id_literal@''", "a", "@id_re@a?"]
+    + ["@data_literal:e@1 or @data_literal:e@True", "not @data_literal:e@1", "a or @data_literal:e@1",
+       "a and @data_literal:e@1", "@data_literal:e@1 or a", "@data_literal:e@1 and a",
+       "@data_literal:e@1 and @data_literal:l@'[1]'", "@data_literal:z@0 and not @data_literal:e@0",
+       "not (@data_literal:e@True or @data_literal:e@1.0) or b", "@data_literal:l@'[1]' or @data_literal:e@1",
+       "@data_literal:n:m@1 or @data_literal:e@1", "(@data_literal:e@0 or @data_literal:e@False) and a",
+       "@data_re:e@.+ and not @data_glob:e@''", "@data_literal:missing@'' and @data_literal:e@1"]
+)
 
 
 # ------------------------------------------------------------------ the oracle (re / fnmatch directly)
@@ -352,11 +480,20 @@ def oracle_row(atom, uname):
         if key is None:
             value, thr = ("" if sid is None else sid), False
         else:
+            fault = getattr(data, "fault", None)
+            if fault is not None and fault[0] == key:
+                # the environment itself raises here; documented: that exception is the result of the call
+                tvs.append(b"ValueError" if issubclass(fault[1], ValueError) else fault[1].__name__.encode())
+                continue
             value, thr = lookup(data, key)
             if value is _NOTFOUND or value is None:
                 value = ""
             elif not isinstance(value, str):
-                value = str(value)
+                try:
+                    value = str(value)
+                except Exception as e:     # noqa  (a value whose __str__ fails)
+                    tvs.append(type(e).__name__.encode())
+                    continue
         tvs.append((1 if rx.fullmatch(value) is not None else 0) + (2 if thr else 0))
     _ROW_CACHE[ck] = (comp, tvs)
     return comp, tvs
@@ -519,6 +656,21 @@ def call(s, env):
     return ("returned:" + type(r).__name__).encode()
 
 
+def call_matcher(m, env):
+    sid, data = env
+    try:
+        r = m.matches(system_id=sid, system_data=data)
+    except ValueError:
+        return b"ValueError"
+    except Exception as e:   # noqa
+        return type(e).__name__.encode()
+    if r is True:
+        return 1
+    if r is False:
+        return 0
+    return ("returned:" + type(r).__name__).encode()
+
+
 class C18(Check):
     ident = "C18"
     technique = ("Coq proof (parse . print = id for every legal layout, evaluation = documented truth table, "
@@ -551,6 +703,10 @@ class C18(Check):
         layouts = ["min", "parens", "glued", "ws", "tabs", "requote", "rand"]
         for s in FIXED_REJECT:
             yield {"s": s, "exp": None, "u": "mut", "kind": "fixed"}
+        # histories on one cached expression / one Matcher over a data object that changes between the calls
+        for s in HIST_EXPRS:
+            self._count("history")
+            yield {"s": s, "exp": None, "u": "hist", "kind": "history"}
         # every atom in every legal style, alone and under not
         for a in ALPHABET:
             for st in legal_styles(a[1]):
@@ -663,6 +819,17 @@ class C18(Check):
         clear = getattr(getattr(SM, "_expression_from_string_cached", None), "cache_clear", None)
         if clear:
             clear()
+        if c["u"] == "hist":
+            # live objects, changed in place between the calls; second pass through ONE Matcher object
+            first = [call(c["s"], env) for env in hist_script()]
+            try:
+                m = SM.matcher(c["s"])
+                second = [call_matcher(m, env) for env in hist_script()]
+            except ValueError:
+                second = [b"ValueError"] * len(envs)
+            except Exception as e:    # noqa
+                second = [type(e).__name__.encode()] * len(envs)
+            return [first, second]
         first = [call(c["s"], env) for env in envs]
         second = [call(c["s"], env) for env in envs]
         return [first, second]
@@ -756,8 +923,9 @@ class C18(Check):
     def show(self, c):
         return {"expression": c["s"], "expression_repr": repr(c["s"]), "intended_tree": c["exp"], "universe": c["u"],
                 "kind": c["kind"],
-                "environments": [[sid, ("SmartLookupDict" if isinstance(d, SmartLookupDict) else "dict" if d is not None else "None"), d]
-                                 for sid, d in UNIVERSES[c["u"]]]}
+                "environments": [[i, sid, type(d).__name__, repr(d) + (" fault=" + repr((d.fault[0], d.fault[1].__name__))
+                                                                           if getattr(d, "fault", None) else "")]
+                                 for i, (sid, d) in enumerate(UNIVERSES[c["u"]])]}
 
     def shrink(self, c):
         e = c["exp"]
